@@ -276,7 +276,11 @@ pub fn types_of(d: Dialect) -> Vec<Ty> {
 
 impl Col {
     pub fn column_def(&self) -> ColumnDef {
-        let mut c = ColumnDef::new_with_type(a(&self.name), self.ty.column_type());
+        self.column_def_opt(true)
+    }
+    /// `with_type = false`: a ColumnDef carrying specifications only (Postgres modify_column)
+    pub fn column_def_opt(&self, with_type: bool) -> ColumnDef {
+        let mut c = if with_type { ColumnDef::new_with_type(a(&self.name), self.ty.column_type()) } else { ColumnDef::new(a(&self.name)) };
         for s in &self.specs {
             match s {
                 CS::NotNull => {
